@@ -211,7 +211,7 @@ def sym_typed(sym, prog, ty, tag, attrs='', depth=0):
     if ty in ('f64', 'f32'):
         return sym.f64(tag, True) if ty == 'f64' else sym.f32(tag)
     if depth > 4:
-        return Opaque('field', tag)
+        return _opaque_field(tag, ty)
     m = re.match(r'^Option<(.*)>$', ty)
     if m:
         return sym.opt(tag, sym_typed(sym, prog, m.group(1), tag + '_v', '', depth + 1))
@@ -223,7 +223,7 @@ def sym_typed(sym, prog, ty, tag, attrs='', depth=0):
         c = re.search(r'count\s*=\s*"(\d+)"', attrs or '')
         if c:
             return Vec(tuple(sym_typed(sym, prog, m.group(1), '%s_%d' % (tag, i), '', depth + 1) for i in range(int(c.group(1)))))
-        return Opaque('field', tag)
+        return _opaque_field(tag, ty)
     en = src.enums.get(ty)
     if en is not None and ty not in src.payload_enums and en:
         d = z3.BitVec(tag, 64)
@@ -233,6 +233,12 @@ def sym_typed(sym, prog, ty, tag, attrs='', depth=0):
         return Struct(ty, [sym_typed(sym, prog, t, '%s_%s' % (tag, n), a, depth + 1) for n, t, a in src.ftypes[ty]])
     if ty in src.tstructs:
         return Struct(ty, [sym_typed(sym, prog, t, '%s_%d' % (tag, i), '', depth + 1) for i, t in enumerate(src.tstructs[ty])])
+    return _opaque_field(tag, ty)
+
+
+def _opaque_field(tag, ty):
+    from checks import step_replay
+    step_replay.OPAQUE_TYPES[tag] = ty
     return Opaque('field', tag)
 
 
@@ -708,18 +714,35 @@ def job_action(prog, job):
             post = c.cells[cid].f[0]
             ret_yes = enum_is(prog, c.value, 'Yes')
 
+            # the model keeps map entries in insertion order, a BTreeMap in key order: align the post entries with the
+            # reference model's entries by address term (remove + re-insert of a record is not a change)
+            post_by_key = {}
+            for e in post.ents:
+                post_by_key.setdefault(key_repr(e[0]), e)
+            frame_key = frame_addr_value(A, df)
+
             def stamp_for(i, post=post):
                 # the time stamp the code itself stored (timestamps are outside the tracker semantics, C20)
-                if i < len(post.ents):
-                    return fget(S, fget(S, post.ents[i][1], 'coords'), 'last_time')
+                k_ = keys[i] if i < len(keys) else frame_key
+                e = post_by_key.get(key_repr(k_)) if k_ is not None else None
+                if e is None and i < len(post.ents):
+                    e = post.ents[i]
+                if e is not None:
+                    return fget(S, fget(S, e[1], 'coords'), 'last_time')
                 return _b.NONE
             spec_action.stamp_for = stamp_for
             cases = enumerate_cases(P, spec)
             if not cases:
                 res['inconclusive'] = 'reference model has no feasible case on a code path'
+            post_orig = post
             for g, want in cases:
                 ents = want['entries']
                 role_base = sig
+                aligned = [post_by_key.get(key_repr(wk)) for wk, _ in ents]
+                if len(post_orig.ents) == len(ents) and all(a is not None for a in aligned) and len({id(a) for a in aligned}) == len(aligned):
+                    post = BMap(tuple(aligned))
+                else:
+                    post = post_orig
                 # C12: added flag, key set, accounting, isolation
                 if 'C12' in props:
                     claim = z3.BoolVal(want['added']) == to_z3bool(ret_yes)
@@ -778,6 +801,22 @@ def job_action(prog, job):
     res['samples'].append({'frame_classes': job['frames'], 'pre_state': '%d symbolic records, every Option symbolic' % k,
                            'frame': 'arbitrary value of the class (all fields symbolic)'})
     return res
+
+
+def key_repr(k):
+    """syntactic identity of an address value (ICAO([u8; 3])): the terms of its three bytes"""
+    try:
+        return tuple(str(to_bv(b)) for b in k.f[0].e)
+    except Exception:      # noqa
+        return ('?', id(k))
+
+
+def frame_addr_value(A, df):
+    if df.variant == 'ADSB':
+        return A.f(df.f[0], 'icao')
+    if df.variant == 'TisB':
+        return A.f(A.f(df, 'cf'), 'aa')
+    return None
 
 
 def ob(res, P, prop, role, claim, detail, bs, job):
@@ -854,10 +893,53 @@ def job_views(prog, job):
             viol(res, 'C14', 'all_position-set', 'position list has %d entries, %d aircraft have a position' % (len(got), len(idxs)), P.feasible(), {}, job)
             continue
         P.discharged += 1
-        for e, i in zip(got, idxs):
-            ob(res, P, 'C14', 'all_position-set', z3.And(value_eq(e.f[0], keys[i]),
-                                                         value_eq_bits(e.f[1], fget(S, fget(S, states[i], 'coords'), 'position').f[0])),
-               'position list entry differs from the record', None, job)
+        # set semantics (the property does not fix an order; the addresses are pairwise distinct): every entry is the
+        # (address, position) of one positioned record and every positioned record occurs
+        def match(e, i):
+            return z3.And(value_eq(e.f[0], keys[i]),
+                          value_eq_bits(e.f[1], fget(S, fget(S, states[i], 'coords'), 'position').f[0]))
+        for e in got:
+            ob(res, P, 'C14', 'all_position-set', z3.Or(*[match(e, i) for i in idxs]) if idxs else z3.BoolVal(False),
+               'a position list entry is not the (address, position) of a positioned record', None, job)
+        for i in idxs:
+            ob(res, P, 'C14', 'all_position-set', z3.Or(*[match(e, i) for e in got]) if got else z3.BoolVal(False),
+               'a positioned aircraft is missing from the position list', None, job)
+    # the text listing (Display for Airplanes): one line per aircraft with details, headed by its address
+    STEP_CTX.clear()
+    ex3 = Executor(prog, _b.B)
+    try:
+        ls = ex3.run_builtin_call('<Airplanes as ToString>::to_string', [Ref(('V', planes))], pc=list(sym.assume))
+    except ExecError as e:
+        ls = []
+        res['inconclusive'] = 'Display for Airplanes: %s' % e
+    note(res, ex3)
+    for c in ls:
+        res['paths'] += 1
+        P.set_path(c.pc)
+        if c.kind != 'return':
+            viol(res, 'C14', 'listing-panics', 'Display for Airplanes panics: %s' % c.msg, P.feasible(), {}, job)
+            continue
+        haves = []
+        for i, stt in enumerate(states):
+            co = fget(S, stt, 'coords')
+            s0 = fget(S, co, 'altitudes').e[0]
+            alt_some = z3.And(opt_discr(s0) == 1, opt_discr(fget(S, s0.f[0], 'alt')) == 1)
+            haves.append(z3.And(opt_discr(fget(S, co, 'position')) == 1, alt_some, opt_discr(fget(S, co, 'kilo_distance')) == 1))
+        idxs = [i for i in range(k) if P.implied(haves[i])]
+        undec = [i for i in range(k) if i not in idxs and not P.implied(z3.Not(haves[i]))]
+        segs = c.value.segs if isinstance(c.value, RString) else ()
+        hexbytes = [sg[2] for sg in segs if not isinstance(sg, str) and sg[0] == 'val' and isinstance(sg[2], Int) and sg[2].ty == 'u8']
+        lines = sum(sg.count('\n') for sg in segs if isinstance(sg, str))
+        P.obligations += 1
+        if undec or lines != len(idxs) or len(hexbytes) != 3 * len(idxs):
+            viol(res, 'C14', 'listing-lines', 'the listing has %d lines (%d address bytes), %d aircraft have details' % (lines, len(hexbytes), len(idxs)),
+                 P.feasible(), {}, job)
+            continue
+        P.discharged += 1
+        for j, i in enumerate(idxs):
+            kb = keys[i].f[0].e
+            ob(res, P, 'C14', 'listing-lines', z3.And(*[to_bv(hexbytes[3 * j + t]) == to_bv(kb[t]) for t in range(3)]),
+               'line %d of the listing is not headed by the address of the %d-th aircraft with details' % (j, j), None, job)
     res['obligations'] = P.obligations
     res['discharged'] = P.discharged
     res['solver_s'] = P.solver_s
